@@ -4,6 +4,7 @@ import (
 	"context"
 	"fmt"
 	"math/rand/v2"
+	"sort"
 	"strings"
 	"sync"
 	"sync/atomic"
@@ -81,7 +82,9 @@ type c14Shared struct {
 	generic    atomic.Int64
 }
 
-func buildC14(kinds []string) *c14Shared {
+// salt varies the breaker kind: count based ratio, or time based (2ms period, i.e. 200us time slices on the real clock, so
+// the sliding window rolls over constantly while records and Metrics() reads overlap)
+func buildC14(kinds []string, salt int) *c14Shared {
 	sh := &c14Shared{}
 	ev := func(e failsafe.ExecutionEvent[int]) { sh.events.Add(1); touchAttempt(e) }
 	for _, k := range kinds {
@@ -113,7 +116,16 @@ func buildC14(kinds []string) *c14Shared {
 				c14Sink.Add(int64(m.Executions() + m.Failures() + m.Successes() + m.FailureRate() + m.SuccessRate()))
 				_ = e.Context().Err()
 			}
-			cb := circuitbreaker.Builder[int]().WithFailureThresholdRatio(5, 10).WithDelay(time.Millisecond).
+			cbb := circuitbreaker.Builder[int]()
+			switch salt % 3 {
+			case 0:
+				cbb.WithFailureThresholdRatio(5, 10)
+			case 1:
+				cbb.WithFailureRateThreshold(50, 5, 2*time.Millisecond)
+			default:
+				cbb.WithFailureThresholdPeriod(5, 2*time.Millisecond).WithSuccessThresholdRatio(2, 3)
+			}
+			cb := cbb.WithDelay(time.Millisecond).
 				HandleErrors(errE1).HandleErrorTypes(valErr{}).
 				WithDelayFunc(func(e failsafe.ExecutionAttempt[int]) time.Duration { touchAttempt(e); return 500 * time.Microsecond }).
 				OnStateChanged(func(e circuitbreaker.StateChangedEvent) { sc(e); scGeneric(e) }).
@@ -206,7 +218,7 @@ func checkC14(rep *vk.Report, prop string) {
 }
 
 func c14Round(rep *vk.Report, prop string, idx int, kinds []string, salt int) {
-	sh := buildC14(kinds)
+	sh := buildC14(kinds, salt)
 	name := strings.Join(kinds, ">")
 	nestedHedges := strings.Count(name, "hedge") > 1
 	g := 16 + salt%3*16
@@ -358,13 +370,15 @@ func c14Round(rep *vk.Report, prop string, idx int, kinds []string, salt int) {
 	go func() { wg.Wait(); close(fin) }()
 	select {
 	case <-fin:
-	case <-time.After(60 * time.Second):
+	case <-time.After(65 * time.Second):
 		st := allStacks()
 		rep.Abort()
-		if strings.Contains(st, "sync.(*Mutex).Lock") && strings.Contains(st, "github.com/failsafe-go/failsafe-go/") {
-			rep.Violate(idx, prop+"/stuck-on-library-mutex", fmt.Sprintf("round over %s did not finish in 60s (every wait in it is bounded by a few ms); goroutines are parked on a mutex inside the library", name), map[string]any{"composition": name, "stacks": st[:min(len(st), 12000)]})
+		if where, n := libraryDeadlock(st); n > 0 {
+			rep.Violate(idx, prop+"/deadlock-inside-library", fmt.Sprintf("round over %s did not finish in 65s (every wait in it is bounded by a few ms): %d goroutines have been blocked for over a minute with library code on top of their stack (%s) and no user function is running inside any execution", name, n, where), map[string]any{"composition": name, "stacks": st[:min(len(st), 12000)]})
+		} else if strings.Contains(st, "sync.(*Mutex).Lock") && strings.Contains(st, "github.com/failsafe-go/failsafe-go/") {
+			rep.Violate(idx, prop+"/stuck-on-library-mutex", fmt.Sprintf("round over %s did not finish in 65s (every wait in it is bounded by a few ms); goroutines are parked on a mutex inside the library", name), map[string]any{"composition": name, "stacks": st[:min(len(st), 12000)]})
 		} else {
-			rep.Inconclusive("C14 round over " + name + " stuck for 60s without goroutines parked on a library mutex")
+			rep.Inconclusive("C14 round over " + name + " stuck for 65s without goroutines blocked for a minute inside the library")
 		}
 		return
 	}
@@ -448,4 +462,63 @@ func c14Standalone(sh *c14Shared, wr *rand.Rand) {
 			c()
 		}
 	}
+}
+
+// libraryDeadlock reads a full goroutine dump taken from a round that should have finished long ago. It returns how many
+// goroutines have been blocked for at least a minute (the runtime prints "N minutes" in the header) with a library
+// function as their first non-runtime frame, and where - but only when no goroutine is inside a harness function that
+// was called from library code (a user function, listener or delay function still running inside some execution, which
+// would make the library's wait legitimate).
+func libraryDeadlock(dump string) (string, int) {
+	const lib = "github.com/failsafe-go/failsafe-go"
+	isRuntime := func(f string) bool {
+		for _, p := range []string{"runtime.", "sync.", "sync/atomic.", "time.", "context.", "internal/", "runtime/"} {
+			if strings.HasPrefix(f, p) {
+				return true
+			}
+		}
+		return false
+	}
+	n := 0
+	where := map[string]bool{}
+	for _, g := range strings.Split(dump, "\n\n") {
+		lines := strings.Split(g, "\n")
+		if len(lines) < 2 || !strings.HasPrefix(lines[0], "goroutine ") {
+			continue
+		}
+		var frames []string
+		for _, l := range lines[1:] {
+			if l != "" && !strings.HasPrefix(l, "\t") && !strings.HasPrefix(l, "created by ") {
+				frames = append(frames, l)
+			}
+		}
+		first := ""
+		sawHarness := false
+		for _, f := range frames {
+			if isRuntime(f) {
+				continue
+			}
+			if first == "" {
+				first = f
+			}
+			if strings.HasPrefix(f, "verifharness/") {
+				sawHarness = true
+			} else if strings.HasPrefix(f, lib) && sawHarness {
+				return "", 0 // harness code called from library code is still on a stack
+			}
+		}
+		if strings.HasPrefix(first, lib) && strings.Contains(lines[0], " minutes") {
+			n++
+			if i := strings.LastIndex(first, "("); i > 0 {
+				first = first[:i]
+			}
+			where[strings.TrimPrefix(first, lib+"/")] = true
+		}
+	}
+	var ws []string
+	for w := range where {
+		ws = append(ws, w)
+	}
+	sort.Strings(ws)
+	return strings.Join(ws, ", "), n
 }
